@@ -40,7 +40,7 @@ def subdivide_unit(U):
         U.prove(f"{nm}.size_k==floor((k+1)N/c)-floor(kN/c)", Pk, size == bnd(k + 1) - bnd(k))
         U.prove(f"{nm}.every_chunk_has_at_least_one_cell", Pk, size >= 1)
         U.prove(f"{nm}.chunk_bounds_start_at_0_and_end_at_N", P, z3.And(bnd(z3.IntVal(0)) == 0, bnd(c) == N))
-    U.assume_note("sum of the sizes = N by telescoping of the chunk bounds floor(kN/c) (meta-level induction)")
+    U.assume_note("sum of the sizes = N and every size >= 1: proved in Lean (lean/Partition.lean: chunk_sizes_sum, chunk_size_pos, thorough tier)")
 
 
 def subdivide_along_axis_unit(chunks):
@@ -252,6 +252,18 @@ UNITS = [
     ("get_neighbor", neighbor_unit),
 ] + [(f"{c}.to_subgrid", to_subgrid_unit(c)) for c in ("DirichletBC", "NeumannBC", "MixedBC", "CurvatureBC", "_PeriodicBC")]
 
+
+
+def lemma_lean_partition(U):
+    """the summation step (induction on the number of cells / chunks) in Lean 4 + Mathlib: lean/Partition.lean"""
+    import os
+
+    from ..runner import VERIF
+    U.lean_file(os.path.join(VERIF, "lean", "Partition.lean"), only=['chunk_sizes_sum', 'chunk_size_pos'])
+
+
+UNITS = list(UNITS) + [("lemma.lean.partition", lemma_lean_partition)]
+THOROUGH_ONLY = set(globals().get("THOROUGH_ONLY", ())) | {"lemma.lean.partition"}
 
 def bounded(tier, seed):
     from ..runner import native
